@@ -87,13 +87,20 @@ PROP = dict(
     level_text="Kernel-checked Lean theorems about a rune-by-rune transcription of parseSearchQuery and of the tag functions: "
                "rejection of malformed queries, normal form of stored tags, immutability of restricted namespaces; the "
                "documented grammar is an executable Lean spec and the implementation's answer is compared with it on every "
-               "string of length <= 5 (quick) / <= 6 (thorough) over an 8-symbol alphabet and on random structured queries.",
+               "string of length <= 5 (quick) / <= 6 (thorough) over an 8-symbol alphabet and on random structured queries. The search itself "
+               "(`fnd` topics, Model/TopicFnd.lean: the session's or the stored query, the parser, the check for masked namespaces, store.Users.FindSubs "
+               "over the adapters' matching rule) runs in the world stream; theorems (Props/C19f.lean): an entry is shown iff it is an account other "
+               "than the searcher's or a topic whose tags match the query, with exactly the matched tags, and which is in the normal state unless a root "
+               "session asks (found_iff: soundness and completeness; never_the_searcher; hidden_from_ordinary_users); a query naming a tag of a masked "
+               "namespace is refused before the store is asked (masked_tag_refused). The monitor recomputes every result list of the implementation "
+               "from the documented reading of the query.",
     level_note="The tags of group topics ({sub new tags}, {set tags}, {get tags}: Model/TopicTags.lean uses the same normalizeTags / restrictedTagsEqual as the theorems) run in the world stream; its monitor checks that stored tags are normalised, change only by the owner's {set tags} and never gain or lose a tag of the immutable namespace. Trusted: Lean kernel; Model/Search.lean is tied to utils.go by the differential run (exhaustive on short strings). "
                "Unicode classes \\pL/\\pN, strings.ToLower/TrimSpace and sort.Strings are parameters or ASCII approximations valid "
                "on the alphabet fed; validators/authenticators that rewrite tags are a parameter (`rewrite`).",
     technique="Lean 4 proof (invariants over the tokenizer fold, sorted-list reasoning) + exhaustive differential correspondence against model and grammar spec",
-    modules=["TinodeVerif.Props.C19", "TinodeVerif.Props.C19t"],
-    theorems=[T + n for n in ["parse_eq_grammar", "malformed_rejected", "tags_normal", "restricted_ns_immutable", "settags_nonowner_refused", "gettags_nonowner_refused", "settags_immutable_refused", "settags_needs_attachment", "new_topic_immutable_refused"]],
+    modules=["TinodeVerif.Props.C19", "TinodeVerif.Props.C19t", "TinodeVerif.Props.C19f"],
+    theorems=[T + n for n in ["parse_eq_grammar", "malformed_rejected", "tags_normal", "restricted_ns_immutable", "settags_nonowner_refused", "gettags_nonowner_refused", "settags_immutable_refused", "settags_needs_attachment", "new_topic_immutable_refused",
+                              "matchTags_iff", "matched_are_shared", "found_iff", "never_the_searcher", "hidden_from_ordinary_users", "masked_tag_refused"]],
     streams=[dict(name="search", pkg="main", gen=gen_search, classify=classify), world.world_stream("C19")],
     seeds=dict(quick=1, thorough=2),
     exhaustive=dict(quick=True, thorough=True),
@@ -101,6 +108,7 @@ PROP = dict(
          "structured queries (words, quoted words, separator runs, injected stray quotes/commas), random tag lists through "
          "normalizeTags and restrictedTagsEqual/filterRestrictedTags under 5 namespace configurations; distinct op lines; "
          "non-trivial = everything except an empty parse",
-    assumptions=["queries are valid UTF-8 in the correspondence run", "no validator/authenticator tag rewriting configured in the run (rewrite = syntax validation only)"],
+    assumptions=["queries are valid UTF-8 in the correspondence run", "no validator/authenticator tag rewriting configured in the run (rewrite = syntax validation only)",
+                 "`fnd`: the namespace `rest` is masked; accounts carry up to three tags out of eight, topics their normalised tags; the adapters' LIMIT on the number of results is not reached"],
     trusted=world.WORLD_TRUSTED,
 )
